@@ -44,6 +44,8 @@ func runC19(c *Config, r *Report) {
 	c19R5(ic, r)
 	c19R6(ic, r)
 	c19R7(ic, r)
+	c19R9(ic, r)
+	c19R10(ic, r)
 	// R19.8: the channel operations a debugged program runs (the cancellable variants) store their
 	// results on every path, like the blocking ones (same analysis as C01/R01.8)
 	c01R8(ic, r, "R19.8", map[string]bool{"recv": true, "recv2": true, "send": true, "rangeChan": true, "_select": true})
@@ -539,6 +541,12 @@ func c19R7(ic *IC, r *Report) {
 			}
 		}
 	}
+	if len(tables) >= 2 && len(flags) == 1 {
+		// the kinds of breakpoint share one flag: the stale-reset of one request table erases the
+		// breakpoints placed from the other (round-5 seed merged breakOnLine and breakOnCall)
+		r.Fail("R19.7", "SetBreakpoints/one-flag-per-request-table", ic.pos(fi.Decl.Pos()), fmt.Sprintf("nodeDebugData has a single breakpoint flag for the %d request tables of breakpointSetup: resetting the line breakpoints of a target (the stale-reset sweep of the line pass) erases the function breakpoints placed on the same nodes, in the same request or in an earlier one", len(tables)))
+		return
+	}
 	if len(flags) < 2 || len(tables) < 2 {
 		r.Errorf("R19.7: %d breakpoint flags and %d request tables found (2 and 2 expected)", len(flags), len(tables))
 		return
@@ -839,4 +847,124 @@ func ownedMapRec(g *SGraph, v ssa.Value, depth int, ownedMapVisiting map[ssa.Val
 		}
 	}
 	return true
+}
+
+func init() {
+	ruleText["R19.9"] = "the session goroutine of Debug detaches the debugger from the interpreter when it ends: a deferred function stores nil into Interpreter.debugger, unconditionally or under a condition that holds when the field still designates this session's debugger"
+	ruleText["R19.10"] = "in the functions of the debugger, every constant index X.child[k] lies under a test of X.kind or len(X.child) (same analysis as R06.10): the hooks run inside the program being debugged, a fault there is a panic the plain execution does not have"
+}
+
+// c19R9: round-5 seed inverted the test guarding the reset, so a finished session stayed attached
+// and later plain executions stopped at its stale breakpoints.
+func c19R9(ic *IC, r *Report) {
+	info := ic.Info
+	fi := ic.fn(r, "Interpreter.Debug")
+	dbgFld := ic.field("Interpreter", "debugger")
+	if fi == nil || dbgFld == nil {
+		r.Errorf("R19.9: Interpreter.Debug / Interpreter.debugger not resolved")
+		return
+	}
+	// the session's debugger: the local stored into the field
+	var session types.Object
+	ast.Inspect(fi.Decl.Body, func(m ast.Node) bool {
+		if as, ok := m.(*ast.AssignStmt); ok && len(as.Lhs) == 1 && len(as.Rhs) == 1 && selField(info, as.Lhs[0]) == dbgFld {
+			if id := identOf(as.Rhs[0]); id != nil && id.Name != "nil" {
+				session = info.ObjectOf(id)
+			}
+		}
+		return true
+	})
+	n := 0
+	okReset := false
+	where := fi.Decl.Pos()
+	ast.Inspect(fi.Decl.Body, func(m ast.Node) bool {
+		g, ok := m.(*ast.GoStmt)
+		if !ok {
+			return true
+		}
+		gl, ok := g.Call.Fun.(*ast.FuncLit)
+		if !ok {
+			return true
+		}
+		for _, st := range gl.Body.List {
+			ds, ok := st.(*ast.DeferStmt)
+			if !ok {
+				continue
+			}
+			dl, ok := ds.Call.Fun.(*ast.FuncLit)
+			if !ok {
+				continue
+			}
+			ast.Inspect(dl.Body, func(k ast.Node) bool {
+				as, ok := k.(*ast.AssignStmt)
+				if !ok || len(as.Lhs) != 1 || len(as.Rhs) != 1 || selField(info, as.Lhs[0]) != dbgFld {
+					return true
+				}
+				if id := identOf(as.Rhs[0]); id == nil || id.Name != "nil" {
+					return true
+				}
+				n++
+				where = as.Pos()
+				// conditions on the way, evaluated under "the field designates this session's debugger"
+				reached := true
+				for _, gd := range pathGuards(dl.Body, as) {
+					v := evalCond(gd.cond, func(e ast.Expr) int {
+						be, ok := e.(*ast.BinaryExpr)
+						if !ok || (be.Op != token.EQL && be.Op != token.NEQ) {
+							return triUnknown
+						}
+						isFld := func(x ast.Expr) bool { return selField(info, x) == dbgFld }
+						isSess := func(x ast.Expr) bool {
+							id := identOf(x)
+							return id != nil && session != nil && info.ObjectOf(id) == session
+						}
+						if (isFld(be.X) && isSess(be.Y)) || (isFld(be.Y) && isSess(be.X)) {
+							if be.Op == token.EQL {
+								return triTrue
+							}
+							return triFalse
+						}
+						return triUnknown
+					})
+					if (gd.want && v != triTrue) || (!gd.want && v != triFalse) {
+						reached = false
+					}
+				}
+				if reached {
+					okReset = true
+				}
+				return true
+			})
+		}
+		return true
+	})
+	r.Check(okReset, "R19.9", "Interpreter.Debug/debugger-detached-at-the-end-of-the-session", ic.pos(where), "the session goroutine resets Interpreter.debugger when it ends",
+		fmt.Sprintf("no deferred function of the session goroutine of Debug stores nil into Interpreter.debugger on the path taken when the field still designates this session's debugger (%d reset statement(s) found): the finished session stays attached, and a later plain Execute/Eval of the interpreter runs under its stale breakpoints, emits events after the terminate event and can be cut short", n))
+}
+
+// c19R10: constant child indexes in the debugger's functions (round-5 seed: enterCall read
+// recv[0].child[1] to qualify a method name; an unnamed receiver has one child).
+func c19R10(ic *IC, r *Report) {
+	var units []childIndexUnit
+	for _, name := range sortedKeys(ic.F) {
+		fi := ic.F[name]
+		if fi.Decl.Body == nil {
+			continue
+		}
+		file := ic.P.Fset.Position(fi.Decl.Pos()).Filename
+		if !strings.HasSuffix(file, "debugger.go") {
+			continue
+		}
+		units = append(units, childIndexUnit{funcName(fi.Decl), fi.Decl.Body})
+	}
+	if len(units) < 10 {
+		r.Errorf("R19.10: only %d functions of the debugger found", len(units))
+		return
+	}
+	n := checkChildIndexes(ic, r, "R19.10", units, func(u childIndexUnit, ix *ast.IndexExpr, owner string) string {
+		return u.name + " indexes " + types.ExprString(ix) + " with no test of " + owner + ".kind or len(" + owner + ".child) on the path: for a node with fewer children (a receiver declared without a name has one) the debugger hook panics inside the program being debugged, which plain execution does not"
+	})
+	if n == 0 {
+		r.Pass("R19.10", "debugger/no-constant-child-index", "", fmt.Sprintf("%d debugger functions, no constant index into node.child", len(units)))
+	}
 }
